@@ -7,8 +7,11 @@ import (
 	"encoding/json"
 	"fmt"
 	"io"
+	"os"
+	"runtime"
 	"sort"
 	"strings"
+	"sync/atomic"
 	"time"
 
 	abci "github.com/tendermint/tendermint/abci/types"
@@ -16,18 +19,21 @@ import (
 
 // Scenario is a list of abstract steps executed against one node (plus, with Twin, an ideal node in lockstep).
 type Scenario struct {
-	ID       string `json:"id"`
-	World    string `json:"world,omitempty"`
-	WorldDef *World `json:"worldDef,omitempty"`
-	Steps    []Step `json:"steps"`
-	Backend  string `json:"backend,omitempty"` // mem | leveldb
-	NoProj   bool   `json:"noProj,omitempty"`  // no state projection, only responses, hashes and digests
-	Family   string `json:"family,omitempty"`
-	Twin     bool   `json:"twin,omitempty"` // run an ideal node (never restarted, never crashed) in lockstep and log both
-	Lean     bool   `json:"lean,omitempty"` // log digests instead of full states (long histories)
-	Snap     int    `json:"snap,omitempty"` // attach a state-sync snapshot store taking a snapshot every `snap` blocks
-	RawBytes bool   `json:"rawBytes,omitempty"` // log the delivered bytes of every transaction (C23)
-	Det      bool   `json:"det,omitempty"`  // log the observable outputs (obs) of every call without a twin: joined with a second process' run afterwards (C08)
+	ID         string              `json:"id"`
+	World      string              `json:"world,omitempty"`
+	WorldDef   *World              `json:"worldDef,omitempty"`
+	Steps      []Step              `json:"steps"`
+	Backend    string              `json:"backend,omitempty"` // mem | leveldb
+	NoProj     bool                `json:"noProj,omitempty"`  // no state projection, only responses, hashes and digests
+	Family     string              `json:"family,omitempty"`
+	Twin       bool                `json:"twin,omitempty"`       // run an ideal node (never restarted, never crashed) in lockstep and log both
+	Lean       bool                `json:"lean,omitempty"`       // log digests instead of full states (long histories)
+	Snap       int                 `json:"snap,omitempty"`       // attach a state-sync snapshot store taking a snapshot every `snap` blocks
+	KeepStates int64               `json:"keepStates,omitempty"` // override of the world's number of kept state versions
+	Readers    int                 `json:"readers,omitempty"`    // C25: number of goroutines serving queries against node A while it executes
+	Schedule   map[string][]string `json:"schedule,omitempty"`   // C25: ABCI phase (begin|deliver|end|commit|between) -> query kinds that may overlap it
+	RawBytes   bool                `json:"rawBytes,omitempty"`   // log the delivered bytes of every transaction (C23)
+	Det        bool                `json:"det,omitempty"`        // log the observable outputs (obs) of every call without a twin: joined with a second process' run afterwards (C08)
 }
 
 // Step is one scenario step.
@@ -120,31 +126,32 @@ type Obs struct {
 
 // Rec is one trace record (one ABCI call or harness step).
 type Rec struct {
-	Sc     string      `json:"sc"`
-	I      int         `json:"i"`
-	Node   string      `json:"node"`
-	Kind   string      `json:"kind"`
-	H      uint64      `json:"h"`
-	Tx     *RecTx      `json:"tx,omitempty"`
-	Check  int64       `json:"check"` // CheckTx code observed just before delivery, -1 if not called
-	Resp   RecResp     `json:"resp"`
-	Begin  *RecBegin   `json:"begin,omitempty"`
-	End    *RecEnd     `json:"end,omitempty"`
-	St     *Abs        `json:"st,omitempty"`
-	Disk   *Abs        `json:"disk,omitempty"`
-	App    *AppRecords `json:"app,omitempty"`
-	Hash   string      `json:"hash"`
-	Panic  string      `json:"panic"`
-	Stack  string      `json:"stack,omitempty"`
-	Writes []string    `json:"writes,omitempty"`
-	Unit   string      `json:"unit,omitempty"`
-	Cfg    *RecCfg     `json:"cfg,omitempty"`
-	Replay bool        `json:"replay"`          // a step re-executed by the handshake emulation after a crash
-	Obs    *Obs        `json:"obs,omitempty"`   // twin scenarios: what node A shows
-	Ideal  *Obs        `json:"ideal,omitempty"` // twin scenarios: what the ideal node shows
-	Fault  string      `json:"fault,omitempty"` // crash: label of the last write that reached the disk
-	RT     *RoundTrip  `json:"rt,omitempty"`    // export/import: the exported state of the original chain (normalised digests)
-	RT2    *RoundTrip  `json:"rt2,omitempty"`   // export/import: the export of the new chain right after InitChain
+	Sc         string      `json:"sc"`
+	I          int         `json:"i"`
+	Node       string      `json:"node"`
+	Kind       string      `json:"kind"`
+	H          uint64      `json:"h"`
+	Tx         *RecTx      `json:"tx,omitempty"`
+	Check      int64       `json:"check"` // CheckTx code observed just before delivery, -1 if not called
+	Resp       RecResp     `json:"resp"`
+	Begin      *RecBegin   `json:"begin,omitempty"`
+	End        *RecEnd     `json:"end,omitempty"`
+	St         *Abs        `json:"st,omitempty"`
+	Disk       *Abs        `json:"disk,omitempty"`
+	App        *AppRecords `json:"app,omitempty"`
+	Hash       string      `json:"hash"`
+	Panic      string      `json:"panic"`
+	Stack      string      `json:"stack,omitempty"`
+	Writes     []string    `json:"writes,omitempty"`
+	Unit       string      `json:"unit,omitempty"`
+	Cfg        *RecCfg     `json:"cfg,omitempty"`
+	Replay     bool        `json:"replay"`          // a step re-executed by the handshake emulation after a crash
+	Obs        *Obs        `json:"obs,omitempty"`   // twin scenarios: what node A shows
+	Ideal      *Obs        `json:"ideal,omitempty"` // twin scenarios: what the ideal node shows
+	Fault      string      `json:"fault,omitempty"` // crash: label of the last write that reached the disk
+	RT         *RoundTrip  `json:"rt,omitempty"`    // export/import: the exported state of the original chain (normalised digests)
+	RT2        *RoundTrip  `json:"rt2,omitempty"`
+	QueryPanic string      `json:"queryPanic,omitempty"` // C25: panics recovered in reader goroutines during this call   // export/import: the export of the new chain right after InitChain
 }
 
 // RecCfg carries the world constants the trace spec needs (first record of every scenario).
@@ -162,10 +169,11 @@ type RecCfg struct {
 
 // Runner executes scenarios and writes trace records.
 type Runner struct {
-	Out     *bufio.Writer
-	WorkDir string
-	seq     int
-	Stats   map[string]int
+	Out       *bufio.Writer
+	WorkDir   string
+	seq       int
+	Stats     map[string]int
+	FlushEach bool // write every record through at once (scenarios that may kill the process)
 }
 
 func NewRunner(w io.Writer, workDir string) *Runner {
@@ -184,6 +192,9 @@ func (r *Runner) emit(rec *Rec) {
 	r.Out.WriteByte('\n')
 	r.Stats["records"]++
 	r.Stats["kind:"+rec.Kind]++
+	if r.FlushEach {
+		r.Out.Flush()
+	}
 }
 
 func tagsOf(evs []abci.Event) map[string]string {
@@ -238,6 +249,8 @@ type runCtx struct {
 	idead    bool
 	last     *builtBlock       // the block committed last (replayed by a node restored from an older snapshot)
 	hashAt   map[uint64]string // app hash returned by the commit of each height
+	pool     *readerPool       // C25: concurrent readers (nil unless the scenario asks for them)
+	progress uint64            // bumped at every ABCI call (watchdog)
 	imported bool              // the node under observation was started from an export of the (now reference) node: compare in normalised form
 	folded   bool              // ... and the export had pending stake updates, which the import folds into the stakes one period early
 }
@@ -338,6 +351,51 @@ func (c *runCtx) diskProjection(rec *Rec) {
 	}
 }
 
+// watchdog ends the process when block execution makes no progress for a while under concurrent queries: a deadlock between
+// the writer and a reader is an observation (the wrapper records the death as a `Fatal` record of the running scenario).
+func (c *runCtx) watchdog(stop chan struct{}) {
+	last, idle := atomic.LoadUint64(&c.progress), 0
+	for {
+		select {
+		case <-stop:
+			return
+		case <-time.After(time.Second):
+		}
+		cur := atomic.LoadUint64(&c.progress)
+		if cur != last {
+			last, idle = cur, 0
+			continue
+		}
+		idle++
+		if idle >= 25 {
+			c.r.Out.Flush()
+			buf := make([]byte, 1<<20)
+			n := runtime.Stack(buf, true)
+			fmt.Fprintf(os.Stderr, "fatal error: block execution made no progress for %d s while queries were served (deadlock)\n%s\n", idle, buf[:n])
+			os.Exit(3)
+		}
+	}
+}
+
+// phase tells the readers which ABCI phase the writer is about to execute.
+func (c *runCtx) phase(p string) {
+	atomic.AddUint64(&c.progress, 1)
+	if c.pool != nil {
+		c.pool.setPhase(p)
+		atomic.StoreUint64(&c.pool.lastH, c.h)
+	}
+}
+
+// queryPanics moves what the readers recovered from into the record (first one as the record's panic if it has none).
+func (c *runCtx) queryPanics(rec *Rec) {
+	if c.pool == nil {
+		return
+	}
+	if ps := c.pool.takePanics(); len(ps) > 0 {
+		rec.QueryPanic = strings.Join(ps, " ;; ")
+	}
+}
+
 func (c *runCtx) twinObs(rec *Rec) {
 	if c.id != nil {
 		rec.Obs = &Obs{}
@@ -367,6 +425,11 @@ func (r *Runner) RunScenario(sc *Scenario) {
 	w := sc.WorldDef
 	if w == nil {
 		w = StandardWorld(sc.World)
+	}
+	if sc.KeepStates > 0 {
+		w2 := *w
+		w2.KeepStates = sc.KeepStates
+		w = &w2
 	}
 	n := NewNames()
 	backend := sc.Backend
@@ -413,6 +476,22 @@ func (r *Runner) RunScenario(sc *Scenario) {
 	c.infoObs(init)
 	r.emit(init)
 	r.Stats["scenarios"]++
+	if sc.Readers > 0 {
+		r.FlushEach = true
+		c.pool = newReaderPool(nd, sc.Readers, sc.Schedule, int64(len(sc.ID))*131+int64(r.seq))
+		c.pool.lastH = c.h
+		stopDog := make(chan struct{})
+		go c.watchdog(stopDog)
+		defer func() {
+			close(stopDog)
+			c.pool.close()
+			rec := c.rec("Queries", c.h)
+			c.queryPanics(rec)
+			rec.Resp.Log = fmt.Sprint(c.pool.served)
+			r.emit(rec)
+			r.Out.Flush()
+		}()
+	}
 	for si := range sc.Steps {
 		if c.dead {
 			break
@@ -661,7 +740,10 @@ func (c *runCtx) block(st *Step) {
 		c.r.Stats["halted"]++
 		return
 	}
+	c.phase("begin")
 	res := nd.Begin(req)
+	c.phase("between")
+	c.queryPanics(rec)
 	c.fail(rec, res)
 	if c.id != nil && !c.idead {
 		if ires := c.id.Begin(req); ires.Panic != "" {
@@ -733,7 +815,10 @@ func (c *runCtx) block(st *Step) {
 		c.twinObs(drec)
 		drec.Tx = rtx
 		drec.Check = checkCode
+		c.phase("deliver")
 		dr, dres := nd.Deliver(bt.Raw)
+		c.phase("between")
+		c.queryPanics(drec)
 		tags := tagsOf(dr.Events)
 		drec.Resp = RecResp{Code: dr.Code, Gas: dr.GasUsed, Tags: tags, Log: dr.Log}
 		obsResp(drec.Obs, dr.Code, dr.GasUsed, tags, dr.Data)
@@ -778,7 +863,10 @@ func (c *runCtx) block(st *Step) {
 	// EndBlock
 	erec := c.rec("EndBlock", h)
 	c.twinObs(erec)
+	c.phase("end")
 	er, eres := nd.End(h)
+	c.phase("between")
+	c.queryPanics(erec)
 	c.fail(erec, eres)
 	if !c.dead {
 		erec.End = updatesOf(nd, er)
@@ -822,7 +910,10 @@ func (c *runCtx) block(st *Step) {
 		nd.Disk.WC.ArmGate()
 	}
 	c.last = bb
+	c.phase("commit")
 	cr, cres := nd.Commit()
+	c.phase("between")
+	c.queryPanics(crec)
 	_, crec.Writes = nd.Disk.WC.Disarm()
 	if cres.Crashed {
 		c.recover(crec, bb, h)
